@@ -392,7 +392,7 @@ def _exception_holds(prog, f, key):
             if not (ok and cut):
                 return False
         lt = prog.fn("ltrim")
-        return any(x.k in ("WhileStmt", "ForStmt") and x.child("cond") is not None and "__ctype_b_loc" in render(x.child("cond")) for x in lt.walk())
+        return any(x.k in ("WhileStmt", "ForStmt") and x.child("cond") is not None and ("__ctype_b_loc" in render(x.child("cond")) or "isspace(" in render(x.child("cond"))) for x in lt.walk())
     return True
 
 
